@@ -1016,3 +1016,200 @@ Proof.
   intros Hno. induction sch as [|i sch IH]; intros c; cbn [wfree]; [exact I|]. split; [|apply IH].
   intros er cc t Hri Has. rewrite (Hno er (nth_error_In _ _ Hri)) in Has. discriminate.
 Qed.
+
+(* ---- request sets whose AddSnapshot requests address clients that already have a version are
+   window-free under EVERY schedule (so C03's linearizability needs no hypothesis on the schedule
+   for them): a client that has a version keeps having one ---- *)
+Definition has_version (a : astore) (c : id) : Prop := exists x, a_cl a c = Some x /\ a_latest x <> nil_id.
+
+Lemma has_version_step cfg U a o E c : Inv U a -> fresh_ok U o E -> has_version a c ->
+  has_version (snd (astep cfg a o E)) c.
+Proof.
+  intros HI Hf (x & Hx & Hl).
+  destruct (of_client c o) eqn:Hoc.
+  - assert (HI0 := HI). destruct HI as (Hok & Hcl & Hids & Hvs).
+    apply of_client_true in Hoc.
+    destruct o as [c1 p d|c1 p|c1 v d|c1|c1|c1 secs|c1 n| |c1 ids]; cbn [op_client] in Hoc; inversion Hoc; subst c1.
+    + destruct (av_accepts x p) eqn:Hacc.
+      * rewrite (av_accept cfg a c x p d E Hok Hx Hacc (fresh_mem_false U a _ _ HI0 Hf)
+                  (cinv_no_child_of_target U x p (Hcl c x Hx) Hacc)).
+        cbn [snd]. unfold av_new_state. eexists. rewrite a_set_lookup, N.eqb_refl. split; [reflexivity|]. cbn [a_latest].
+        cbn [fresh_ok] in Hf. intros Hn. apply Hf. left. exact Hn.
+      * rewrite (av_conflict cfg a c x p d E Hok Hx Hacc). cbn [snd]. exists x. auto.
+    + rewrite gcv_step by assumption. exists x. auto.
+    + rewrite as_step by assumption. rewrite Hx. cbn [snd]. destruct (as_accepts x v); [|exists x; auto].
+      unfold as_new_state. eexists. rewrite a_set_lookup, N.eqb_refl. split; [reflexivity|exact Hl].
+    + rewrite gs_step by assumption. exists x. auto.
+    + rewrite ensure_step by assumption. cbn [snd]. rewrite Hx. exists x. auto.
+    + rewrite backdate_step by assumption. cbn [snd]. unfold rewrite_state. rewrite Hx.
+      destruct (a_snap x) as [[m d]|]; [|exists x; auto]. eexists. rewrite a_set_lookup, N.eqb_refl. split; [reflexivity|exact Hl].
+    + rewrite setcounter_step by assumption. cbn [snd]. unfold rewrite_state. rewrite Hx.
+      destruct (a_snap x) as [[m d]|]; [|exists x; auto]. eexists. rewrite a_set_lookup, N.eqb_refl. split; [reflexivity|exact Hl].
+    + rewrite dump_step by assumption. exists x. auto.
+  - exists x. rewrite (step_other cfg U a o E c HI Hf Hoc). auto.
+Qed.
+
+Lemma has_version_not_nothing a c : has_version a c -> ~ holds_nothing AStoreB a c.
+Proof.
+  intros (x & Hx & Hl) Hn. unfold holds_nothing in Hn. cbn in Hn. rewrite Hx in Hn. cbn in Hn.
+  inversion Hn as [H0]. apply Hl. exact H0.
+Qed.
+
+(* the transactions of the handlers, as library steps *)
+Lemma av_txn_state cfg a c p d E :
+  a_end (snd (finish AStoreB E (a_begin a c) (p_add_version cfg p d))) = snd (astep cfg a (OAddVersion c p d) E).
+Proof.
+  pose proof (finish_lib_av AStoreB cfg E c p d a) as Hl. change (b_begin AStoreB a c) with (a_begin a c) in Hl.
+  destruct (finish AStoreB E (a_begin a c) (p_add_version cfg p d)) as [r w]. cbn [snd].
+  pose proof (astep_eq cfg a (OAddVersion c p d) E) as Hae. rewrite Hl in Hae. inversion Hae as [[Hr Hs]]. first [exact Hs|reflexivity].
+Qed.
+Lemma ensure_txn_state cfg a c E :
+  a_end (snd (finish AStoreB E (a_begin a c) p_ensure)) = snd (astep cfg a (OEnsure c) E).
+Proof.
+  pose proof (finish_lib_ensure AStoreB cfg E c a) as Hl. change (b_begin AStoreB a c) with (a_begin a c) in Hl.
+  destruct (finish AStoreB E (a_begin a c) p_ensure) as [r w]. cbn [snd].
+  pose proof (astep_eq cfg a (OEnsure c) E) as Hae. rewrite Hl in Hae. inversion Hae as [[Hr Hs]]. first [exact Hs|reflexivity].
+Qed.
+
+Lemma has_version_hstep cfg allow U a rq E c : cfg_ok cfg -> Inv U a -> hfresh_ok U rq E -> has_version a c ->
+  has_version (snd (hstep_a cfg allow a rq E)) c.
+Proof.
+  intros Hcfg HI Hf Hv.
+  destruct (not_served_refused cfg allow rq) as [(st & Hst & Hr)|(Hsv & c0 & Hcid & Hc)].
+  - unfold hstep_a. rewrite http_step_route. destruct Hr as [Hr|[Hr _]]; rewrite Hr; cbn [run_hprog fst snd]; exact Hv.
+  - destruct (hstep_reach cfg allow U a rq E Hcfg HI Hf) as (_ & _ & Hout).
+    destruct (Hout Hsv (ex_intro _ c0 (conj Hcid Hc))) as (r & a' & Hlo & Heq). rewrite Heq. cbn [snd].
+    assert (HI0 := HI). destruct HI as (Hok & _).
+    unfold lib_outcome in Hlo.
+    destruct Hsv as [c' p cs Hb|c' p ct cs|c' v cs Hb|c' ct cs]; cbn [rq_method rq_path rq_cid rq_chunks] in Hlo;
+      inversion Hlo as [Hlo']; clear Hlo.
+    + change (match a_cl a c' with Some _ => a | None => a_set a c' (mkCS nil_id None []) (a_allids a) end) with (ensured a c') in Hlo'.
+      replace a' with (snd (astep cfg (ensured a c') (OAddVersion c' p (body_of cs)) E)) by (rewrite Hlo'; reflexivity).
+      assert (Hf1 : fresh_ok U (OAddVersion c' p (body_of cs)) E) by exact Hf.
+      apply (has_version_step cfg U (ensured a c') (OAddVersion c' p (body_of cs)) E c (inv_ensured U a c' HI0) Hf1).
+      destruct Hv as (x & Hx & Hl). exists x. split; [|exact Hl]. rewrite ensured_lookup.
+      destruct (N.eqb_spec c c') as [->|Hne]; [rewrite Hx; reflexivity|exact Hx].
+    + replace a' with (snd (astep cfg a (OGetChild c' p) E)) by (rewrite Hlo'; reflexivity).
+      apply (has_version_step cfg U a (OGetChild c' p) E c HI0 I Hv).
+    + replace a' with (snd (astep cfg a (OAddSnapshot c' v (body_of cs)) E)) by (rewrite Hlo'; reflexivity).
+      apply (has_version_step cfg U a (OAddSnapshot c' v (body_of cs)) E c HI0 I Hv).
+    + replace a' with (snd (astep cfg a (OGetSnapshot c') E)) by (rewrite Hlo'; reflexivity).
+      apply (has_version_step cfg U a (OGetSnapshot c') E c HI0 I Hv).
+Qed.
+
+Lemma cstep_has_version cfg allow U0 reqs c i c' cc : cfg_ok cfg -> fresh_distinct U0 reqs ->
+  cinv_sys cfg allow reqs c -> cstep AStoreB hresp c i = Some c' -> has_version (db c) cc -> has_version (db c') cc.
+Proof.
+  intros Hcfg [Hnd Hfr] (Hown & Hlen & W & HI & HG & Hth) Hst Hv.
+  unfold cstep in Hst. destruct (nth_error (th c) i) as [t|] eqn:Hi; [|discriminate].
+  assert (Hlt : (i < length reqs)%nat) by (rewrite <- Hlen; apply nth_error_Some; congruence).
+  destruct (nth_error reqs i) as [er|] eqn:Hri; [|apply nth_error_None in Hri; lia].
+  pose proof (Hth i er t Hri Hi) as Hti.
+  set (G := all_mentioned reqs) in *.
+  destruct (Hfr er (nth_error_In _ _ Hri)) as (Hfnil & HfG & _).
+  assert (Hav : forall c0 p d, In c0 G -> In p G -> ~ usedp W (e_fresh (fst er)) ->
+            forall k : res (av_result * option urgency) -> hprog hresp,
+              (let '(r, w) := finish AStoreB (fst er) (b_begin AStoreB (db c) c0) (p_add_version cfg p d) in
+               Some (@mkSys AStoreB hresp (b_end AStoreB w) None (upd (th c) i (TIdle (fst er) (k r))))) = Some c' ->
+            has_version (db c') cc).
+  { intros c0 p d Hc0 Hp Hf k Hk.
+    pose proof (av_txn_state cfg (db c) c0 p d (fst er)) as Hs.
+    change (b_begin AStoreB (db c) c0) with (a_begin (db c) c0) in Hk.
+    destruct (finish AStoreB (fst er) (a_begin (db c) c0) (p_add_version cfg p d)) as [r w]. cbn [snd] in Hs.
+    inversion Hk; subst c'. cbn [db]. change (b_end AStoreB w) with (a_end w). rewrite Hs.
+    apply (has_version_step cfg W (db c) (OAddVersion c0 p d) (fst er) cc HI); [|exact Hv].
+    apply (usedp_cp W G c0 p (e_fresh (fst er)) Hf Hc0 Hp HfG). }
+  destruct Hti as [Hf|c0 p d Hf Hc0 Hp|c0 p d Hf Hc0 Hp Hcl|r Hr|r Hr].
+  - assert (Hfo : hfresh_ok W (snd er) (fst er)).
+    { unfold hfresh_ok. intros [Hn|Hin]; [contradiction|]. apply in_app_iff in Hin. destruct Hin as [Hin|Hin].
+      - apply HfG. eapply hmentioned_in; eauto.
+      - apply Hf. right. exact Hin. }
+    destruct (handler_shape cfg allow (snd er)) as [[r Hh]|[(X & c0 & body & f & Hh)|(c0 & p & d & Hh & Hcid & Hpath)]]; rewrite Hh in Hst.
+    + inversion Hst; subst c'. exact Hv.
+    + pose proof (single_txn_run X (fst er) c0 body f (db c)) as Hrun.
+      change (b_begin AStoreB (db c) c0) with (a_begin (db c) c0) in Hst.
+      destruct (finish AStoreB (fst er) (a_begin (db c) c0) body) as [r w] eqn:Hfin.
+      inversion Hst; subst c'. cbn [db]. change (b_end AStoreB w) with (a_end w).
+      pose proof (has_version_hstep cfg allow W (db c) (snd er) (fst er) cc Hcfg HI Hfo Hv) as Hh2.
+      unfold hstep_a, http_step in Hh2. cbn [fst snd] in Hh2. rewrite Hh, Hrun in Hh2. exact Hh2.
+    + assert (Hc0 : In c0 G) by (eapply hmentioned_in; [exact Hri|]; unfold hmentioned; rewrite Hcid, Hpath; cbn; auto).
+      assert (Hp : In p G) by (eapply hmentioned_in; [exact Hri|]; unfold hmentioned; rewrite Hcid, Hpath; cbn; auto).
+      change AV_FUEL with 2%nat in Hst. rewrite av_loop_unfold' in Hst.
+      apply (Hav c0 p d Hc0 Hp Hf (fun r => hmap dh (av_k 1 cfg c0 p d r)) Hst).
+  - cbn [ensure_node hmap] in Hst.
+    pose proof (ensure_txn_state cfg (db c) c0 (fst er)) as Hs.
+    change (b_begin AStoreB (db c) c0) with (a_begin (db c) c0) in Hst.
+    destruct (finish AStoreB (fst er) (a_begin (db c) c0) p_ensure) as [r w]. cbn [snd] in Hs.
+    inversion Hst; subst c'. cbn [db]. change (b_end AStoreB w) with (a_end w). rewrite Hs.
+    apply (has_version_step cfg W (db c) (OEnsure c0) (fst er) cc HI I Hv).
+  - rewrite av_loop_unfold' in Hst.
+    apply (Hav c0 p d Hc0 Hp Hf (fun r => hmap dh (av_k 0 cfg c0 p d r)) Hst).
+  - inversion Hst; subst c'. exact Hv.
+  - discriminate.
+Qed.
+
+(* every schedule is window-free when each AddSnapshot request addresses a client that already
+   has a version *)
+Theorem wfree_existing cfg allow U0 a0 reqs sch : cfg_ok cfg -> Inv U0 a0 -> fresh_distinct U0 reqs ->
+  (forall er c, In er reqs -> as_client (snd er) = Some c -> has_version a0 c) ->
+  wfree AStoreB reqs (init_sys AStoreB hresp a0 (handlers cfg allow reqs)) sch.
+Proof.
+  intros Hcfg HI Hfd Hex.
+  assert (Hgen : forall c : sys AStoreB hresp, cinv_sys cfg allow reqs c ->
+            (forall er cl, In er reqs -> as_client (snd er) = Some cl -> has_version (db c) cl) ->
+            wfree AStoreB reqs c sch).
+  { induction sch as [|i sch IH]; intros c Hc Hv; cbn [wfree]; [exact I|]. split.
+    - intros er cl t Hri Has _ _. apply has_version_not_nothing. apply (Hv er cl (nth_error_In _ _ Hri) Has).
+    - destruct (cstep AStoreB hresp c i) as [c'|] eqn:Hst; [|apply IH; assumption].
+      apply IH.
+      + apply (cinv_step cfg allow U0 reqs c i c' Hcfg Hfd Hc Hst).
+      + intros er cl Hin Has. apply (cstep_has_version cfg allow U0 reqs c i c' cl Hcfg Hfd Hc Hst). apply (Hv er cl Hin Has). }
+  apply Hgen; [apply (cinv_init cfg allow U0 a0 reqs HI Hfd)|exact Hex].
+Qed.
+
+(* ---- concrete backends, every schedule, no hypothesis on the schedule ---- *)
+Theorem lin_coarse_a k cfg allow U0 a0 d0 reqs sch : cfg_ok cfg -> Inv U0 a0 -> bk_rel k a0 d0 -> fresh_distinct U0 reqs ->
+  wfree AStoreB reqs (init_sys AStoreB hresp a0 (handlers cfg allow reqs)) sch ->
+  let s0 := init_sys (bk_backend k) hresp d0 (handlers cfg allow reqs) in
+  linearized k cfg allow reqs d0 (crun (bk_backend k) hresp s0 sch) (lin_order s0 sch []).
+Proof.
+  intros Hcfg HI HR Hfd Hwa s0.
+  set (H := handlers cfg allow reqs) in *.
+  set (ca0 := init_sys AStoreB hresp a0 H) in *.
+  assert (Hrel0 : bk_rel k (db ca0) (db s0) /\ Forall2 (trel (bk_backend k) hresp) (th ca0) (th s0))
+    by (split; [exact HR|apply init_trel]).
+  assert (Hok : a_ok (db (crun AStoreB hresp ca0 sch)) = true).
+  { pose proof (cinv_run cfg allow U0 reqs sch Hcfg Hfd ca0 (cinv_init cfg allow U0 a0 reqs HI Hfd)) as Hc.
+    destruct Hc as (_ & _ & W & (Hok & _) & _). exact Hok. }
+  destruct (bk_crun_sim k hresp sch ca0 s0 Hrel0 Hok) as [Hdb Hth].
+  pose proof (lin_abstract cfg allow U0 a0 reqs sch Hcfg HI Hfd Hwa) as Hl. fold H in Hl. fold ca0 in Hl.
+  rewrite (bk_lin_order_sim k sch ca0 s0 [] Hrel0 Hok).
+  destruct (linv_reading cfg allow reqs a0 _ _ Hl) as (Hnd & Hresp & He & Hok' & Hoka & Hall). fold H in Hresp, He, Hok', Hall.
+  destruct (bk_seq_run_sim k H (lin_order ca0 sch []) a0 d0 HR Hok') as [Hf Hs].
+  unfold linearized. fold H. rewrite Hf.
+  split; [exact Hnd|]. split.
+  - intros i r Hi. apply Hresp.
+    pose proof (forall2_nth (trel (bk_backend k) hresp) _ _ i Hth) as Hn. rewrite Hi in Hn.
+    destruct (nth_error (th (crun AStoreB hresp ca0 sch)) i) as [ta|]; [|contradiction]. inversion Hn; subst. reflexivity.
+  - eexists. eexists. split; [exact Hs|]. split; [exact Hdb|]. split; [exact Hok'|]. split; [exact Hoka|]. split; [exact He|].
+    intros Hd. apply Hall. intros i t Hi.
+    pose proof (forall2_nth (trel (bk_backend k) hresp) _ _ i Hth) as Hn. rewrite Hi in Hn.
+    destruct (nth_error (th (crun (bk_backend k) hresp s0 sch)) i) as [tb|] eqn:Htb; [|contradiction].
+    destruct (Hd i tb Htb) as [r Hr]. subst tb. inversion Hn; subst. eauto.
+Qed.
+
+(* requests whose AddSnapshot clients already have a version: linearizable under EVERY
+   fine-grained schedule *)
+Theorem lin_fine_existing k cfg allow U0 a0 d0 reqs sch : cfg_ok cfg -> Inv U0 a0 -> bk_rel k a0 d0 -> fresh_distinct U0 reqs ->
+  (forall er c, In er reqs -> as_client (snd er) = Some c -> has_version a0 c) ->
+  let s0 := init_sys (bk_backend k) hresp d0 (handlers cfg allow reqs) in
+  owner (frun (bk_backend k) hresp s0 sch) = None ->
+  linearized k cfg allow reqs d0 (frun (bk_backend k) hresp s0 sch)
+             (lin_order s0 (csched (bk_backend k) hresp s0 sch) []).
+Proof.
+  intros Hcfg HI HR Hfd Hex s0 Hq.
+  destruct (txn_atomic_quiescent (bk_backend k) hresp sch s0 (init_wf _ _ d0 (handlers cfg allow reqs)) eq_refl Hq) as [Hdb Hth].
+  pose proof (lin_coarse_a k cfg allow U0 a0 d0 reqs (csched (bk_backend k) hresp s0 sch) Hcfg HI HR Hfd
+                (wfree_existing cfg allow U0 a0 reqs _ Hcfg HI Hfd Hex)) as Hl. fold s0 in Hl.
+  unfold linearized in *. unfold all_done in *. rewrite Hdb, Hth. exact Hl.
+Qed.
